@@ -17,7 +17,7 @@ pub fn def() -> PropDef {
         mode: Mode::Run,
         programs,
         strum_features: &["derive"],
-        profiles: &["dev"],
+        profiles: &["dev", "release"],
         rule: "programs: field-less enums with n=1..nmax enabled variants x every subset of {first, middle, last} positions holding an additional disabled variant x {implicit, \
                descending explicit, gapped explicit} discriminants x identifier sets with digits/acronyms/underscores (field names go through snakify); plus probes for enums named \
                E/F/T/U. per enum: stateright BFS to fixpoint; initial states new(1,2,..), filled(7), from_closure(injective f), default(); actions table[k] = v for every declared key \
